@@ -500,8 +500,11 @@ func runC18(c *eng.Ctx) {
 			}
 		}
 		// the follower shift is within [1, nodes-1]: a follower is never the first replica's node
-		ri := c.Fn("coordinator/master.replicaIndex")
-		shiftRange(c, ri)
+		if ri := p.Func("coordinator/master.replicaIndex"); ri != nil && ri.Blocks != nil {
+			shiftRange(c, ri)
+		} else {
+			shiftRangeInline(c, c.Fn("coordinator/master.assignReplicasToStorageNodes"))
+		}
 	})
 
 	// ---- 5b. first replicas go round the nodes one by one: index = (shard id + start) mod nodes, start fixed for the whole call --------
@@ -570,12 +573,6 @@ func constOf0(c *eng.Ctx, pkg, name string) int64 { return constOf(c, pkg, name)
 // the first replica's index lies in [1, numOfNode-1] for non-negative inputs, and that the result
 // is taken modulo numOfNode. Bounds are of the form  k*n + c  with n = numOfNode.
 func shiftRange(c *eng.Ctx, f *ssa.Function) {
-	p := c.P
-	type bound struct {
-		ok       bool
-		lo       int64 // constant lower bound
-		hiN, hiC int64 // upper bound hiN*n + hiC ; hiN<0 means unbounded
-	}
 	var n ssa.Value
 	for _, prm := range f.Params {
 		if prm.Name() == "numOfNode" {
@@ -584,6 +581,67 @@ func shiftRange(c *eng.Ctx, f *ssa.Function) {
 	}
 	if n == nil {
 		c.Undecided("replicaIndex has no numOfNode parameter")
+	}
+	rets := eng.SuccessReturns(f)
+	if len(rets) != 1 {
+		c.Undecided("replicaIndex: expected one return")
+	}
+	shiftRangeOf(c, f, rets[0], eng.RetVal(rets[0], 0), n,
+		func(v ssa.Value) bool { pr, ok := v.(*ssa.Parameter); return ok && pr.Name() == "firstReplicaIndex" },
+		func(v ssa.Value) bool { _, ok := v.(*ssa.Parameter); return ok })
+}
+
+// shiftRangeInline: replicaIndex written in place in assignReplicasToStorageNodes - the follower's index is the index of the
+// storage node handed to the AddReplica call of the inner loop, the first replica's index that of the other AddReplica call.
+func shiftRangeInline(c *eng.Ctx, f *ssa.Function) {
+	adds := c.Some(f, eng.AnyCallTo("models.ShardAssignment.AddReplica"), "shardAssignment.AddReplica(shard, node)")
+	idxOf := func(a eng.Site) ssa.Value {
+		var idx ssa.Value
+		eng.WalkExpr(eng.CallArgs(a.Instr.(*ssa.Call))[1], func(x ssa.Value) bool {
+			if ia, ok := x.(*ssa.IndexAddr); ok && idx == nil {
+				idx = eng.Unwrap(ia.Index)
+			}
+			return true
+		})
+		return idx
+	}
+	var first, follower ssa.Value
+	var at ssa.Instruction
+	for _, a := range adds {
+		idx := idxOf(a)
+		bo, ok := idx.(*ssa.BinOp)
+		if !ok || bo.Op != token.REM {
+			continue
+		}
+		if eng.DependsOn(bo.X, func(x ssa.Value) bool { b2, ok := x.(*ssa.BinOp); return ok && b2.Op == token.REM && x != ssa.Value(bo) }) {
+			follower, at = idx, a.Instr // (first + 1 + (...) % (n-1)) % n : contains an inner remainder
+		} else {
+			first = idx
+		}
+	}
+	if first == nil || follower == nil {
+		c.Undecided("unresolved anchor: neither replicaIndex(...) nor its body in place (storageNodeIDs[(first + shift) mod n]) found")
+	}
+	n := follower.(*ssa.BinOp).Y
+	shiftRangeOf(c, f, at, follower, n,
+		func(v ssa.Value) bool { return eng.Unwrap(v) == first },
+		func(v ssa.Value) bool {
+			switch x := v.(type) {
+			case *ssa.Parameter, *ssa.Phi:
+				return true // start index, loop counter, running shift: non-negative by construction (checked by the start-is-fixed / counter rules)
+			case *ssa.Call:
+				return calleeName(x) == "Intn"
+			}
+			return false
+		})
+}
+
+func shiftRangeOf(c *eng.Ctx, f *ssa.Function, at ssa.Instruction, rv ssa.Value, n ssa.Value, isFirst, nonNeg func(ssa.Value) bool) {
+	p := c.P
+	type bound struct {
+		ok       bool
+		lo       int64 // constant lower bound
+		hiN, hiC int64 // upper bound hiN*n + hiC ; hiN<0 means unbounded
 	}
 	unb := bound{ok: true, lo: 0, hiN: -1}
 	var eval func(v ssa.Value, d int) bound
@@ -597,7 +655,7 @@ func shiftRange(c *eng.Ctx, f *ssa.Function) {
 		if v == n {
 			return bound{true, 1, 1, 0}
 		}
-		if _, ok := v.(*ssa.Parameter); ok {
+		if nonNeg(v) {
 			return unb // non-negative by the callers (start index / loop counter); upper bound unknown
 		}
 		bo, ok := v.(*ssa.BinOp)
@@ -632,11 +690,7 @@ func shiftRange(c *eng.Ctx, f *ssa.Function) {
 		}
 		return bound{}
 	}
-	rets := eng.SuccessReturns(f)
-	if len(rets) != 1 {
-		c.Undecided("replicaIndex: expected one return")
-	}
-	rv := eng.RetVal(rets[0], 0)
+	rets := []ssa.Instruction{at}
 	top, ok := rv.(*ssa.BinOp)
 	if !ok || top.Op.String() != "%" || top.Y != n {
 		c.Check(false, "replicaIndex:mod-nodes", rets[0], f, "the follower index is reduced modulo the number of nodes", "returns "+p.Desc(rv))
@@ -649,9 +703,9 @@ func shiftRange(c *eng.Ctx, f *ssa.Function) {
 		return
 	}
 	var shift ssa.Value
-	if pr, ok := sum.X.(*ssa.Parameter); ok && pr.Name() == "firstReplicaIndex" {
+	if isFirst(sum.X) {
 		shift = sum.Y
-	} else if pr, ok := sum.Y.(*ssa.Parameter); ok && pr.Name() == "firstReplicaIndex" {
+	} else if isFirst(sum.Y) {
 		shift = sum.X
 	}
 	if shift == nil {
